@@ -237,6 +237,17 @@ static cell_t mkc(long long o, unsigned long long sz, bool rem) {
   x.mark_as_removed(rem);
   return x;
 }
+// covers_all_offsets exists only in the repaired tree: detect it
+template <typename D> static auto covers_impl(const std::vector<cell_t> &c, const itv_t &i, unsigned long long e, int)
+    -> decltype(D::covers_all_offsets(c, i, e), std::string()) {
+  return D::covers_all_offsets(c, i, e) ? "true" : "false";
+}
+template <typename D> static std::string covers_impl(const std::vector<cell_t> &, const itv_t &, unsigned long long, long) {
+  return "absent";
+}
+static std::string covers(const std::vector<cell_t> &c, const itv_t &i, unsigned long long e) {
+  return covers_impl<adapt_itv_t>(c, i, e, 0);
+}
 static std::string run_cells(const std::vector<std::string> &line) {
   std::vector<std::vector<std::string>> ops(1);
   for (auto &s : line) { if (s == ";") ops.emplace_back(); else ops.back().push_back(s); }
@@ -249,7 +260,8 @@ static std::string run_cells(const std::vector<std::string> &line) {
     if (ops[i].empty()) continue;
     tok k{ops[i], 0};
     std::string op = k.next();
-    if (op == "mk") { long w = k.nexti(); long long o = std::stoll(k.next()); unsigned long long sz = std::stoull(k.next()); cell_t x = m[w].mk_cell(offset_t((index_t)o), sz); emit(show_cell(x)); }
+    if (op == "clear") { long w = k.nexti(); m[w].clear(); emit("{}"); }
+    else if (op == "mk") { long w = k.nexti(); long long o = std::stoll(k.next()); unsigned long long sz = std::stoull(k.next()); cell_t x = m[w].mk_cell(offset_t((index_t)o), sz); emit(show_cell(x)); }
     else if (op == "erase") { long w = k.nexti(); long long o = std::stoll(k.next()); unsigned long long sz = std::stoull(k.next()); m[w].erase(mkc(o, sz, false)); emit(show_cells(m[w].get_all_cells(), false)); }
     else if (op == "remove") { long w = k.nexti(); long long o = std::stoll(k.next()); unsigned long long sz = std::stoull(k.next()); m[w].remove(mkc(o, sz, false)); emit(show_cells(m[w].get_all_cells(), false)); }
     else if (op == "all") { long w = k.nexti(); emit(show_cells(m[w].get_all_cells(), false)); }
@@ -283,6 +295,64 @@ static std::string run_cells(const std::vector<std::string> &line) {
       m[w] = res; emit(show_cells(m[w].get_all_cells(), false));
     }
     else if (op == "leq") { long s = k.nexti(), t = k.nexti(); emit(m[s] <= m[t] ? "true" : "false"); }
+    else if (op == "dstore" || op == "dload") {
+      // decision of array_store / array_load on a hand-built value: the array has the
+      // offset map m[w], is smashed or not, and the index is a variable in [lo, hi].
+      //   dstore|dload w S N C M smashed esz_state lo hi esz
+      long w = k.nexti();
+      bool S = k.nexti() != 0, N = k.nexti() != 0; unsigned C = k.nexti(), M = k.nexti();
+      crab::domains::array_adaptive_domain_params ap(S, N, C, M);
+      crab::domains::crab_domain_params_man::get().update_params(ap);
+      bool sm = k.nexti() != 0; std::string es = k.next();
+      std::string lo = k.next(), hi = k.next(); unsigned long long esz = std::stoull(k.next());
+      z_var a(vfac["A"], crab::ARR_INT_TYPE, 8 * esz), x(vfac["x"], crab::INT_TYPE, 8 * esz);
+      adapt_itv_t d;
+      if (lo != "-oo") d += cst_t(lin_t(iv) >= z_number(lo));
+      if (hi != "+oo") d += cst_t(lin_t(iv) <= z_number(hi));
+      typedef adapt_itv_t::array_state as_t;
+      crab::domains::array_adaptive_impl::constant_value cv = es == "T" ? crab::domains::array_adaptive_impl::constant_value::top()
+            : crab::domains::array_adaptive_impl::constant_value((int64_t)std::stoll(es));
+      as_t st(bool(sm), std::move(cv), offset_map_t(m[w]));
+      d.m_array_map.set(a, st);
+      for (auto &c : m[w].get_all_cells()) d.m_cell_ghost_man.get_or_insert_ghost(a, c);
+      if (op == "dstore") d.array_store(a, lin_t(z_number((long)esz)), lin_t(iv), lin_t(z_number(7)), false);
+      else d.array_load(x, a, lin_t(z_number((long)esz)), lin_t(iv));
+      const as_t *r = d.m_array_map.find(a);
+      std::string o2;
+      if (!r) o2 = "none";
+      else if (r->is_smashed()) { crab::crab_string_os os; r->get_element_sz().write(os); o2 = "S" + os.str(); }
+      else o2 = show_cells(r->get_offset_map().get_all_cells(), false);
+      emit(o2);
+    }
+    else if (op == "asjoin" || op == "asmeet") {
+      // array_state::join / meet of (m[0], smashed sx, element size ex) and (m[1], sy, ey);
+      // the first n0 (n1) cells of m[0] (m[1]) have ghost variables.
+      //   asjoin N C M sx ex sy ey n0 n1
+      bool N = k.nexti() != 0; unsigned C = k.nexti(), M = k.nexti();
+      crab::domains::array_adaptive_domain_params ap(true, N, C, M);
+      crab::domains::crab_domain_params_man::get().update_params(ap);
+      typedef adapt_itv_t::array_state as_t;
+      typedef crab::domains::array_adaptive_impl::constant_value cv_t;
+      bool sx = k.nexti() != 0; std::string ex = k.next(); bool sy = k.nexti() != 0; std::string ey = k.next();
+      long n0 = k.nexti(), n1 = k.nexti();
+      auto mkcv = [](const std::string &e) { return e == "T" ? cv_t::top() : cv_t((int64_t)std::stoll(e)); };
+      z_var a(vfac["A"], crab::ARR_INT_TYPE, 32);
+      as_t X(bool(sx), mkcv(ex), offset_map_t(m[0])), Y(bool(sy), mkcv(ey), offset_map_t(m[1]));
+      adapt_itv_t::cell_ghost_man_t g0, g1;
+      adapt_itv_t::base_domain_t b0, b1;
+      long j = 0; for (auto &c : m[0].get_all_cells()) { if (j++ < n0) g0.get_or_insert_ghost(a, c); }
+      j = 0; for (auto &c : m[1].get_all_cells()) { if (j++ < n1) g1.get_or_insert_ghost(a, c); }
+      as_t R = op == "asjoin" ? X.join(a, Y, g0, b0, g1, b1) : X.meet(a, Y, g0, b0, g1, b1);
+      crab::crab_string_os os; R.get_element_sz().write(os);
+      emit(std::string(R.is_smashed() ? "S" : "N") + os.str() + show_cells(R.get_offset_map().get_all_cells(), false));
+    }
+    else if (op == "cover") {
+      // covers_all_offsets(all cells of m[w], [lo,hi], esz): only with fixes/arrays-4
+      long w = k.nexti(); std::string lo = k.next(), hi = k.next(); unsigned long long esz = std::stoull(k.next());
+      itv_t ii(lo == "-oo" ? bound<z_number>::minus_infinity() : bound<z_number>(z_number(lo)),
+               hi == "+oo" ? bound<z_number>::plus_infinity() : bound<z_number>(z_number(hi)));
+      emit(covers(m[w].get_all_cells(), ii, esz));
+    }
     else if (op == "smash") {
       long w = k.nexti(); unsigned long long esz = std::stoull(k.next()); long nz = k.nexti();
       emit(adapt_itv_t::array_state::can_be_smashed(m[w].get_all_cells(), esz, nz != 0) ? "true" : "false");
